@@ -12,7 +12,10 @@ PROP = 'C18'
 # a record as redo prints it: may be glued to the end of an unterminated line of the previous writer
 REC = re.compile(r'@@REDO:([^:@\n]*):(-?\d+):(\d+(?:\.\d+)?)@@ (.*)$')
 SAFE = 'abcdefghijklmnopqrstuvwxyzABCDEFGHIJKLMNOPQRSTUVWXYZ0123456789 _-+=.,:;!?()[]{}<>/|~^&*%$"`\tüé中'
-LOOKALIKES = ['@@REDO:done:1:1.0@@ hello', '@@REDO:done:7:2.5@@ not-a-number t', '@@REDO:', '@@REDO:do:x:1@@ t', 'mid @@REDO in line', '@@REDO:done:12:zz@@ 0 t', '@@ REDO:do:1:1.0@@ t', '@@REDO:do:1@@ t', '@@redo:do:1:1.0@@ t']
+# names no generated project has a target for: a record-shaped line about one of them cannot be a record of redo's
+NOT_A_TARGET = re.compile(r'^$|no-such-target|^/nonexistent/|^(\.\./){6}')
+LOOKALIKES = ['@@REDO:done:1:1.0@@ hello', '@@REDO:done:7:2.5@@ not-a-number t', '@@REDO:do:1:1.0@@ ', '@@REDO:do:1:1.0@@ no-such-target',
+              '@@REDO:unchanged:1:1.0@@ no-such-target', '@@REDO:locked:7:2.5@@ ../../../../../../zz', '@@REDO:waiting:1:1.0@@ /nonexistent/t', '@@REDO:', '@@REDO:do:x:1@@ t', 'mid @@REDO in line', '@@REDO:done:12:zz@@ 0 t', '@@ REDO:do:1:1.0@@ t', '@@REDO:do:1@@ t', '@@redo:do:1:1.0@@ t']
 
 
 # --------------------------------------------------------------------------- program generation
@@ -212,8 +215,9 @@ def attribute(stream, cwd_rel=''):
             else:
                 per.setdefault(cur, []).append(ln[:i])
         kind, pid, ts, text = mm.group(1), int(mm.group(2)), float(mm.group(3)), mm.group(4)
-        if kind == 'done' and not re.match(r'^-?\d+ ', text + ' '):
-            # has the shape of a record, but no "done" record redo writes looks like this (no exit status): a line of the script
+        if (kind == 'done' and not re.match(r'^-?\d+ ', text + ' ')) or (kind in ('do', 'waiting', 'locked', 'unlocked', 'unchanged') and NOT_A_TARGET.search(text)):
+            # has the shape of a record, but no record redo writes looks like this (a "done" without exit status, a record about
+            # something that is not a target of the project): a line of the script
             if cur is None:
                 problems.append('text outside any target: %r' % ln[:80])
             else:
